@@ -118,7 +118,8 @@ def verify_uri(
     :return: Raise an exception response if the redirect URI is faulty otherwise None
     """
 
-    client_id = request.get("client_id") or client_id
+    # the client the caller has identified (e.g. the owner of the session) wins over the request
+    client_id = client_id or request.get("client_id")
     if not client_id:
         logger.error("No client_id provided")
         raise UnknownClient("No client_id provided")
